@@ -24,7 +24,8 @@ def run(rep):
         import eng_impl
         bad = None
         checked = 0
-        for name, ul, script, meta, ol in hists[:40 if rep.tier == 'quick' else 400]:
+        sel = hists[:40 if rep.tier == 'quick' else 400] + [h for h in hists if h[0].startswith('scen:')]
+        for name, ul, script, meta, ol in sel:
             why = eng_oracle.oracle_c11(ul, [l for l in ol if l not in eng_oracle.teardown_lines(meta)], meta)
             checked += 1
             if why:
